@@ -551,6 +551,15 @@ def task(t, res):
         case_legacy_prefix(res)
     else:
         raise ValueError(part)
+    if part != "layout":
+        # "a token's id never changes": also not by using the codecs - the layout is judged again after everything this task did
+        from ..runner import Result
+
+        sub = Result()
+        case_layout(sub)
+        res.evaluations += sub.evaluations
+        for f in sub.fails:
+            res.fail(f["key"] + f"|after_{part}", f"after the {part} cases of this task ran in the same process: " + f["what"], dict(kind="after", task=t))
 
 
 def run(ctx):
@@ -588,6 +597,9 @@ def run(ctx):
 
 # --------------------------------------------------------------------------------------------- replay
 def replay(d, res):
+    if d.get("kind") == "after":
+        task(d["task"], res)
+        return
     k = d["kind"]
     if k == "layout":
         case_layout(res)
